@@ -68,6 +68,9 @@ fn near_misses(suffix: bool) -> Vec<(&'static str, bool)> {
         // files of another timestamp scheme (members of the family under that scheme only)
         ("app_r2020-01-01_00-00-00.log", false),
         ("app_2020-01-01_00-00-00.log", false),
+        // a multi-byte character directly in front of the text of the suffix (no dot)
+        ("app_r00000\u{ff0e}log", false),
+        ("app_caf\u{e9}log", false),
         // a well-formed timestamp of the future followed by more text
         ("app_r2036-03-03_12-00-00-copy.log", false),
         // a well-formed restart extension followed by more text
@@ -320,6 +323,7 @@ fn name_class(n: &str) -> &'static str {
         "app_r2023-02-30_10-00-00.log" => "timestamp-shape-but-no-date",
         "app_r2020-01-01_00-00-00.log" | "app_2020-01-01_00-00-00.log" => "other-timestamp-scheme",
         "app_r2036-03-03_12-00-00-copy.log" => "future-timestamp+text",
+        "app_r00000\u{ff0e}log" | "app_caf\u{e9}log" => "multi-byte-before-suffix-text",
         "app_r2020-01-01_00-00-00.restart-0000-copy.log" | "app_r2020-01-01_00-00-00.restart-00000.log" => "restart-extension+text",
         "app_r9999-99-99_99-99-99.log" | "app_r2024-05-15_12-30-10.restart-abcd.log" | "app_r2024-05-15_12-30-10.restart-" => "timestamp-like",
         "app_r00000.log.d" => "directory",
